@@ -166,6 +166,45 @@ int main(int argc, char **argv) {
         }
         if (ci % 9 == 0) vf::sample("{\"array\":" + vf::jstr(desc) + ",\"requests\":" + std::to_string(reqs.size()) + ",\"prefixes\":21,\"entry_points\":\"Tag, MultiTag, dataSlice\"}", 4);
     }
+    // ---- vector overloads of util::positionToIndex with one unit PER PAIR: every pair must convert exactly like the pair alone
+    {
+        long cid = caseno++;
+        if (vf::take_case(cid)) {
+            vf::case_desc("util::positionToIndex(starts, ends, units, match, dimension) with mixed units per pair");
+            DataArray sa = b.createDataArray("vec_s", "t", DataType::Double, NDSize({8}));
+            SampledDimension sd = sa.appendSampledDimension(0.5, "t", "ms", 1.0);
+            DataArray ra = b.createDataArray("vec_r", "t", DataType::Double, NDSize({5}));
+            RangeDimension rd = ra.appendRangeDimension({250.0, 500.0, 1000.0, 2000.0, 4000.0}, "t", "ms");
+            // (start, end, unit) triples: values exact in binary after scaling
+            struct Tr { double s, e; const char *u; };
+            std::vector<Tr> pool = {{1.0, 3.0, "ms"}, {0.5, 2.0, "none"}, {0.0009765625, 0.001953125, "s"}, {2048.0, 4096.0, "us"}, {1.5, 1.5, "ms"}, {0.25, 1.0, "s"}, {250.0, 1000.0, "none"}, {500.0, 2000.0, "ms"}};
+            for (size_t i = 0; i < pool.size(); i++) for (size_t j = 0; j < pool.size(); j++) for (size_t k = 0; k < pool.size(); k += 3) {
+                std::vector<Tr> sel = {pool[i], pool[j], pool[k]};
+                for (RangeMatch rm : {RangeMatch::Inclusive, RangeMatch::Exclusive}) for (int dimk = 0; dimk < 2; dimk++) {
+                    std::vector<double> ss, ee; std::vector<std::string> uu;
+                    for (auto &t : sel) { ss.push_back(t.s); ee.push_back(t.e); uu.push_back(t.u); }
+                    typedef std::vector<boost::optional<std::pair<ndsize_t, ndsize_t>>> RV;
+                    RV all; std::string e1 = vf::guarded([&] { all = dimk == 0 ? util::positionToIndex(ss, ee, uu, rm, sd) : util::positionToIndex(ss, ee, uu, rm, rd); });
+                    vf::count("scaled_retrievals");
+                    for (size_t q = 0; q < sel.size(); q++) {
+                        RV one; std::string e2 = vf::guarded([&] { one = dimk == 0 ? util::positionToIndex({ss[q]}, {ee[q]}, {uu[q]}, rm, sd) : util::positionToIndex({ss[q]}, {ee[q]}, {uu[q]}, rm, rd); });
+                        vf::count("scaled_retrievals");
+                        bool same = e1.empty() == e2.empty() && (!e1.empty() || (all.size() == sel.size() && all[q] == one[0]));
+                        if (!e1.empty() && e2.empty()) {
+                            // the list call raised although this pair alone converts: acceptable only if some pair of the list raises alone
+                            bool someone = false;
+                            for (size_t r = 0; r < sel.size(); r++) if (!vf::guarded([&] { dimk == 0 ? util::positionToIndex({ss[r]}, {ee[r]}, {uu[r]}, rm, sd) : util::positionToIndex({ss[r]}, {ee[r]}, {uu[r]}, rm, rd); }).empty()) someone = true;
+                            same = someone;
+                        }
+                        if (!same)
+                            vf::violation(std::string("C18|util::positionToIndex(starts,ends,units)|") + (dimk == 0 ? "sampled" : "range") + " dimension, units differ between the pairs|pair " + (q == 0 ? "first" : "later") + " in the list converts like the pair alone|differs",
+                                          std::string("units ") + vf::jvecs(uu) + " starts " + vf::jvecd(ss) + " ends " + vf::jvecd(ee) + " pair " + std::to_string(q));
+                    }
+                    vf::distinct("outcomes", std::string("vec|") + uu[0] + "," + uu[1] + "," + uu[2]);
+                }
+            }
+        }
+    }
     f.close();
     return vf::finish();
 }
